@@ -336,21 +336,25 @@ theorem C13_decode_strict (X : Ext) :
 
 /-! ## meaning -/
 
-/-- **An accepted document is given its XML meaning** — full statement, for the character data of a string element
-`<name>run</name>`: whatever mix of text with references, CDATA sections, comments and PIs the run is written as,
-the decoder returns the string it denotes. FALSE today (findings `xml-cdata-dropped`, `xml-comment-splits-text`;
-kernel-checked counterexamples in `S3V/Findings/C13.lean`). -/
-def C13_decode_meaning_full (X : Ext) : Prop :=
-  ∀ (run : List QEv) (name : Bytes) (rest : List QEv) (m : Bytes), charsMeaning run = some m →
-    readStringElement X name (deEvents (run ++ .stop name :: rest)) = .ok (.str m, deEvents rest)
+/-- **An accepted document is given its XML meaning** (FULL since the repair c575458 of `Deserializer::text`; until
+then false for CDATA sections and interrupted text, findings `xml-cdata-dropped` / `xml-comment-splits-text`, now
+fixed). For the character data of every scalar element `<name>run</name>`, whatever mix of text pieces with entity
+and character references, CDATA sections, comments and PIs the run is written as (`charsMeaning run = some m`, no
+further hypothesis):
 
-/-- the part that holds: character data that is not *interrupted* (`XmlSpec.interrupted`, a decidable predicate: a
-non-empty CDATA section, or a second text piece after a comment / PI / CDATA section) — i.e. plain text with entity
-and character references, with comments / PIs / empty CDATA sections only before or after it. -/
-theorem C13_decode_meaning_partial (X : Ext) (run : List QEv) (name : Bytes) (rest : List QEv) (m : Bytes)
-    (hm : charsMeaning run = some m) (hplain : interrupted run = false) :
+1. `Deserializer::text` consumes the whole run up to the end tag and hands the scalar parser (string, str-enum,
+   integer, boolean, timestamp alike) a text `raw` whose unescaped form is exactly the string `m` the run denotes —
+   never a shortened one;
+2. a string element is read as `m`, and the cursor is behind the element.
+
+What remains different from the XML meaning is outside this statement: the reader does not normalise line ends
+(§2.11; open finding `xml-eol-not-normalised` — `charsMeaning` takes the pieces as the tokeniser delivers them). -/
+theorem C13_decode_meaning (X : Ext) (run : List QEv) (name : Bytes) (rest : List QEv) (m : Bytes)
+    (hm : charsMeaning run = some m) :
+    (∃ raw, textOf (deEvents (run ++ .stop name :: rest)) = .ok (raw, .stop name :: deEvents rest) ∧
+      decodeStr raw = .ok m) ∧
     readStringElement X name (deEvents (run ++ .stop name :: rest)) = .ok (.str m, deEvents rest) :=
-  read_uninterrupted X name rest run m hm hplain
+  ⟨textOf_meaning name rest run m hm, readString_meaning X name rest run m hm⟩
 
 /-! ## non-vacuity -/
 
@@ -379,7 +383,8 @@ example (X : Ext) : Fits X taggingSch taggingVal := by
   · rw [fits_struct, fitsFields_absent, fitsFields_one, fitsFields_nil, fits_str]
     exact ⟨rfl, by decide, trivial⟩
 
-example : charsMeaning [.comment, .text [97, 38, 108, 116, 59], .cdata []] = some [97, 60] ∧
-    interrupted [.comment, .text [97, 38, 108, 116, 59], .cdata []] = false := by decide
+/-- `<!-- -->a&lt;<![CDATA[b&]]><?pi?>c` denotes `a<b&c` -/
+example : charsMeaning [.comment, .text [97, 38, 108, 116, 59], .cdata [98, 38], .pi, .text [99]] = some [97, 60, 98, 38, 99] := by
+  decide
 
 end S3V.C13
